@@ -508,6 +508,13 @@ _run_clauses = run
 def run(prog, rep):
     _run_clauses(prog, rep)
     from plint.wiring import check_zero_init, check_error_contract
+    from plint.wiring import result_tests
+    _ru = prog.unit("psemaphore-posix.c")
+    _nrt, _brt = result_tests(_ru)
+    rep.ob("C06.3", _brt[0][0] if _brt else sorted(_ru.functions.values(), key=lambda f_: f_.loc[0])[0], "result-tests", _nrt >= 3 and not _brt,
+           "%d tests of system call results put 0 (or a valid descriptor) on the success side" % _nrt if (_nrt >= 3 and not _brt) else
+           ("line %d: `%s` in %s counts a successful call as failed (or descriptor 0 as no descriptor): what the call did in the kernel is not recorded in the object, or a valid "
+            "descriptor is dropped" % (line(_brt[0][1]), _brt[0][2], _brt[0][0].name) if _brt else "fewer result tests than expected (%d)" % _nrt), _brt[0][1] if _brt else _ru.functions[sorted(_ru.functions)[0]].loc[0])
     check_error_contract(rep, "C06.2", prog, ['psemaphore-posix.c', 'psemaphore-sysv.c'], 10)
     check_zero_init(rep, "C06.2", prog, ['psemaphore-posix.c', 'psemaphore-sysv.c'], 1)
 
